@@ -2086,6 +2086,12 @@ def g3_seeds(X):
         if fn.endswith(".xml") and os.path.getsize(p):
             with open(p, "rb") as f:
                 seeds.append(("repo:" + fn, f.read()))
+    # documented alternatives no repository input uses (ellipsoid given by a and b / a and 1/f)
+    cd = os.path.join(CORPUS, "fuzz_dataparser")
+    for fn in sorted(os.listdir(cd)):
+        if fn.startswith("g3-model-ellipsoid"):
+            with open(os.path.join(cd, fn), "rb") as f:
+                seeds.append(("corpus:" + fn, f.read()))
     exe = runner.binpath("san", "gama-g3")
 
     def work(item):
@@ -2231,7 +2237,7 @@ def w8_fuzz(X, build_thread):
         if nseed == 0:
             ck.inconc("no committed corpus for " + target)
         nj = X.n(5, 16) if kind == "gkf" else X.n(3, 8)
-        runs = X.n(25000, 500000) if kind == "gkf" else X.n(60000, 1500000)
+        runs = X.n(25000, 400000) if kind == "gkf" else X.n(60000, 400000 if kind == "data" else 800000)
         for j in range(nj):
             jobs.append((target, kind, dic, maxlen, exe, seeds, j, runs))
 
